@@ -171,4 +171,31 @@ theorem unknown_tag_fails (s s' : CS) (t p : Nat) (h : s.step (.deliver t p) = s
 example : ((CS.init 4).run [.alloc 7, .alloc 8, .enqueue 7, .enqueue 8, .deliver 1 99, .ret 8, .deliver 0 55, .ret 7]).map
     (fun s => (s.free, s.cache, s.live, s.pend)) = some ([2, 3], [1, 0], [], []) := by decide
 
+
+/-- The pipelined Tag interface: its requests carry the Tag's own tag, so several pending calls
+    share one (states `alloc` never produces). The receiver gives a reply to the *oldest* pending
+    call with that tag — the list is in issue order (`enqueue` appends) — so calls sharing a tag
+    are completed in the order they were issued, whatever else is pending in between. -/
+theorem shared_tag_replies_in_issue_order (s : CS) (t p i : Nat) (before after : List Nat)
+    (hc : s.closed = false) (hpend : s.pend = before ++ i :: after) (hi : tagOf s i = some t)
+    (hb : ∀ j ∈ before, tagOf s j ≠ some t) :
+    s.step (.deliver t p) = some { s with pend := s.pend.erase i, woken := (i, some p) :: s.woken } := by
+  have hfind : s.pend.find? (fun j => tagOf s j == some t) = some i := by
+    rw [hpend, List.find?_append]
+    have h1 : before.find? (fun j => tagOf s j == some t) = none := by
+      rw [List.find?_eq_none]
+      intro j hj
+      have := hb j hj
+      simp [this]
+    rw [h1]
+    simp [hi]
+  simp [CS.step, hc, hfind]
+
+/-! non-vacuity: callers 1 and 3 share tag 7 (a Tag), caller 2 has a pooled tag in between -/
+def exTag : CS :=
+  { free := [], cache := [], live := [(1, 7), (2, 0), (3, 7)], pend := [1, 2, 3], woken := [], refused := [],
+    err := false, closed := false }
+
+example : (exTag.step (.deliver 7 42)).map (fun s => (s.pend, s.woken)) = some ([2, 3], [(1, some 42)]) := by decide
+
 end G9.C09
